@@ -65,18 +65,18 @@ package detect
 //@     invariant len(distributions) == 15 && off(distributions) == 0 && fresh(distributions)
 //@     invariant forall a int :: {distributions[a]} 0 <= a && a < 15 ==> len(distributions[a]) == s && off(distributions[a]) == 0 && fresh(distributions[a]) && ref(distributions[a]) != ref(distributions)
 //@     invariant forall a int, c int :: {distributions[a], distributions[c]} 0 <= a && a < c && c < 15 ==> ref(distributions[a]) != ref(distributions[c])
-//@     invariant forall a int :: {counters[a]} 0 <= a && a < 15 ==> counters[a] == passcnt(a, st, p0, B, i)
-//@     invariant forall a int, k int :: {distributions[a][k]} 0 <= a && a < 15 && 0 <= k && k < i ==> distributions[a][k] == qval(a, st, p0 + k*B, B)
+//@     invariant {C07,C14} forall a int :: {counters[a]} 0 <= a && a < 15 ==> counters[a] == passcnt(a, st, p0, B, i)
+//@     invariant {C07} forall a int, k int :: {distributions[a][k]} 0 <= a && a < 15 && 0 <= k && k < i ==> distributions[a][k] == qval(a, st, p0 + k*B, B)
 //@   loop 2
 //@     invariant len(resArr) == 15 && off(resArr) == 0 && fresh(resArr) && ref(resArr) != ref(distributions)
-//@     invariant forall a int :: {resArr[a]} 0 <= a && a < 15 ==> resArr[a] != nil && resArr[a].Q == qval(a, st, p0 + i*B, B) && resArr[a].Pass == passes(a, st, p0 + i*B, B)
-//@     invariant forall a int :: {counters[a]} 0 <= a && a < 15 ==> counters[a] == passcnt(a, st, p0, B, i) + (a < $i && passes(a, st, p0 + i*B, B) ? 1 : 0)
-//@     invariant forall a int, k int :: {distributions[a][k]} 0 <= a && a < 15 && 0 <= k && k < i ==> distributions[a][k] == qval(a, st, p0 + k*B, B)
-//@     invariant forall a int :: {distributions[a][i]} 0 <= a && a < $i ==> distributions[a][i] == qval(a, st, p0 + i*B, B)
+//@     invariant {C07,C14} forall a int :: {resArr[a]} 0 <= a && a < 15 ==> resArr[a] != nil && resArr[a].Q == qval(a, st, p0 + i*B, B) && resArr[a].Pass == passes(a, st, p0 + i*B, B)
+//@     invariant {C07,C14} forall a int :: {counters[a]} 0 <= a && a < 15 ==> counters[a] == passcnt(a, st, p0, B, i) + (a < $i && passes(a, st, p0 + i*B, B) ? 1 : 0)
+//@     invariant {C07} forall a int, k int :: {distributions[a][k]} 0 <= a && a < 15 && 0 <= k && k < i ==> distributions[a][k] == qval(a, st, p0 + k*B, B)
+//@     invariant {C07} forall a int :: {distributions[a][i]} 0 <= a && a < $i ==> distributions[a][i] == qval(a, st, p0 + i*B, B)
 //@   loop 3
-//@     invariant forall a int :: {counters[a]} 0 <= a && a < $i ==> counters[a] >= t
+//@     invariant {C07,C08,C14} forall a int :: {counters[a]} 0 <= a && a < $i ==> counters[a] >= t
 //@   loop 4
-//@     invariant forall a int :: {distributions[a]} 0 <= a && a < i ==> ThresholdQ#0(distributions[a]) >= AlphaT
+//@     invariant {C07,C08} forall a int :: {distributions[a]} 0 <= a && a < i ==> ThresholdQ#0(distributions[a]) >= AlphaT
 
 //@ func PowerOnDetect
 //@   requires source != nil && !readfailed(source)
@@ -90,18 +90,18 @@ package detect
 //@     invariant len(distributions) == 15 && off(distributions) == 0 && fresh(distributions)
 //@     invariant forall a int :: {distributions[a]} 0 <= a && a < 15 ==> len(distributions[a]) == s && off(distributions[a]) == 0 && fresh(distributions[a]) && ref(distributions[a]) != ref(distributions)
 //@     invariant forall a int, c int :: {distributions[a], distributions[c]} 0 <= a && a < c && c < 15 ==> ref(distributions[a]) != ref(distributions[c])
-//@     invariant forall a int :: {counters[a]} 0 <= a && a < 15 ==> counters[a] == passcnt(a, st, p0, B, i)
-//@     invariant forall a int, k int :: {distributions[a][k]} 0 <= a && a < 15 && 0 <= k && k < i ==> distributions[a][k] == qval(a, st, p0 + k*B, B)
+//@     invariant {C07,C14} forall a int :: {counters[a]} 0 <= a && a < 15 ==> counters[a] == passcnt(a, st, p0, B, i)
+//@     invariant {C07} forall a int, k int :: {distributions[a][k]} 0 <= a && a < 15 && 0 <= k && k < i ==> distributions[a][k] == qval(a, st, p0 + k*B, B)
 //@   loop 2
 //@     invariant len(resArr) == 15 && off(resArr) == 0 && fresh(resArr) && ref(resArr) != ref(distributions)
-//@     invariant forall a int :: {resArr[a]} 0 <= a && a < 15 ==> resArr[a] != nil && resArr[a].Q == qval(a, st, p0 + i*B, B) && resArr[a].Pass == passes(a, st, p0 + i*B, B)
-//@     invariant forall a int :: {counters[a]} 0 <= a && a < 15 ==> counters[a] == passcnt(a, st, p0, B, i) + (a < $i && passes(a, st, p0 + i*B, B) ? 1 : 0)
-//@     invariant forall a int, k int :: {distributions[a][k]} 0 <= a && a < 15 && 0 <= k && k < i ==> distributions[a][k] == qval(a, st, p0 + k*B, B)
-//@     invariant forall a int :: {distributions[a][i]} 0 <= a && a < $i ==> distributions[a][i] == qval(a, st, p0 + i*B, B)
+//@     invariant {C07,C14} forall a int :: {resArr[a]} 0 <= a && a < 15 ==> resArr[a] != nil && resArr[a].Q == qval(a, st, p0 + i*B, B) && resArr[a].Pass == passes(a, st, p0 + i*B, B)
+//@     invariant {C07,C14} forall a int :: {counters[a]} 0 <= a && a < 15 ==> counters[a] == passcnt(a, st, p0, B, i) + (a < $i && passes(a, st, p0 + i*B, B) ? 1 : 0)
+//@     invariant {C07} forall a int, k int :: {distributions[a][k]} 0 <= a && a < 15 && 0 <= k && k < i ==> distributions[a][k] == qval(a, st, p0 + k*B, B)
+//@     invariant {C07} forall a int :: {distributions[a][i]} 0 <= a && a < $i ==> distributions[a][i] == qval(a, st, p0 + i*B, B)
 //@   loop 3
-//@     invariant forall a int :: {counters[a]} 0 <= a && a < $i ==> counters[a] >= t
+//@     invariant {C07,C08,C14} forall a int :: {counters[a]} 0 <= a && a < $i ==> counters[a] >= t
 //@   loop 4
-//@     invariant forall a int :: {distributions[a]} 0 <= a && a < i ==> ThresholdQ#0(distributions[a]) >= AlphaT
+//@     invariant {C07,C08} forall a int :: {distributions[a]} 0 <= a && a < i ==> ThresholdQ#0(distributions[a]) >= AlphaT
 
 //@ func PeriodDetect
 //@   requires source != nil && !readfailed(source)
@@ -115,18 +115,18 @@ package detect
 //@     invariant len(distributions) == 12 && off(distributions) == 0 && fresh(distributions)
 //@     invariant forall a int :: {distributions[a]} 0 <= a && a < 12 ==> len(distributions[a]) == s && off(distributions[a]) == 0 && fresh(distributions[a]) && ref(distributions[a]) != ref(distributions)
 //@     invariant forall a int, c int :: {distributions[a], distributions[c]} 0 <= a && a < c && c < 12 ==> ref(distributions[a]) != ref(distributions[c])
-//@     invariant forall a int :: {counters[a]} 0 <= a && a < 12 ==> counters[a] == passcnt(a, st, p0, B, i)
-//@     invariant forall a int, k int :: {distributions[a][k]} 0 <= a && a < 12 && 0 <= k && k < i ==> distributions[a][k] == qval(a, st, p0 + k*B, B)
+//@     invariant {C07,C14} forall a int :: {counters[a]} 0 <= a && a < 12 ==> counters[a] == passcnt(a, st, p0, B, i)
+//@     invariant {C07} forall a int, k int :: {distributions[a][k]} 0 <= a && a < 12 && 0 <= k && k < i ==> distributions[a][k] == qval(a, st, p0 + k*B, B)
 //@   loop 2
 //@     invariant len(resArr) == 12 && off(resArr) == 0 && fresh(resArr) && ref(resArr) != ref(distributions)
-//@     invariant forall a int :: {resArr[a]} 0 <= a && a < 12 ==> resArr[a] != nil && resArr[a].Q == qval(a, st, p0 + i*B, B) && resArr[a].Pass == passes(a, st, p0 + i*B, B)
-//@     invariant forall a int :: {counters[a]} 0 <= a && a < 12 ==> counters[a] == passcnt(a, st, p0, B, i) + (a < $i && passes(a, st, p0 + i*B, B) ? 1 : 0)
-//@     invariant forall a int, k int :: {distributions[a][k]} 0 <= a && a < 12 && 0 <= k && k < i ==> distributions[a][k] == qval(a, st, p0 + k*B, B)
-//@     invariant forall a int :: {distributions[a][i]} 0 <= a && a < $i ==> distributions[a][i] == qval(a, st, p0 + i*B, B)
+//@     invariant {C07,C14} forall a int :: {resArr[a]} 0 <= a && a < 12 ==> resArr[a] != nil && resArr[a].Q == qval(a, st, p0 + i*B, B) && resArr[a].Pass == passes(a, st, p0 + i*B, B)
+//@     invariant {C07,C14} forall a int :: {counters[a]} 0 <= a && a < 12 ==> counters[a] == passcnt(a, st, p0, B, i) + (a < $i && passes(a, st, p0 + i*B, B) ? 1 : 0)
+//@     invariant {C07} forall a int, k int :: {distributions[a][k]} 0 <= a && a < 12 && 0 <= k && k < i ==> distributions[a][k] == qval(a, st, p0 + k*B, B)
+//@     invariant {C07} forall a int :: {distributions[a][i]} 0 <= a && a < $i ==> distributions[a][i] == qval(a, st, p0 + i*B, B)
 //@   loop 3
-//@     invariant forall a int :: {counters[a]} 0 <= a && a < $i ==> counters[a] >= t
+//@     invariant {C07,C08,C14} forall a int :: {counters[a]} 0 <= a && a < $i ==> counters[a] >= t
 //@   loop 4
-//@     invariant forall a int :: {distributions[a]} 0 <= a && a < i ==> ThresholdQ#0(distributions[a]) >= AlphaT
+//@     invariant {C07,C08} forall a int :: {distributions[a]} 0 <= a && a < i ==> ThresholdQ#0(distributions[a]) >= AlphaT
 
 //@ func SingleDetect
 //@   requires source != nil && !readfailed(source) && numByte >= 0
@@ -153,8 +153,8 @@ package detect
 //@     invariant done(wait) == done(wait)@pre + $i
 //@   loop 2
 //@     invariant len(resArr) == len(distributions) && fresh(resArr) && ref(resArr) != ref(distributions)
-//@     invariant forall a int :: {resArr[a]} 0 <= a && a < len(resArr) ==> resArr[a] != nil && resArr[a].Q == app(runnerOf(a), j.data).Q && resArr[a].Pass == app(runnerOf(a), j.data).Pass
-//@     invariant forall a int :: {distributions[a]} 0 <= a && a < $i ==> distributions[a][j.i] == app(runnerOf(a), j.data).Q
+//@     invariant {C08} forall a int :: {resArr[a]} 0 <= a && a < len(resArr) ==> resArr[a] != nil && resArr[a].Q == app(runnerOf(a), j.data).Q && resArr[a].Pass == app(runnerOf(a), j.data).Pass
+//@     invariant {C08} forall a int :: {distributions[a]} 0 <= a && a < $i ==> distributions[a][j.i] == app(runnerOf(a), j.data).Q
 
 //@ func bootWorker
 //@   requires (round == fn(Round15) && len(distributions) == 15) || (round == fn(Round12) && len(distributions) == 12)
@@ -193,9 +193,9 @@ package detect
 //@   assume after Wait: err == nil ==> (forall a int, k int :: {distributions[a][k]} 0 <= a && a < 15 && 0 <= k && k < s ==> distributions[a][k] == qval(a, st, p0 + k*B, B))
 //@   assume after Wait: err == nil ==> (forall a int :: {counters[a]} 0 <= a && a < 15 ==> counters[a] == passcnt(a, st, p0, B, s))
 //@   loop 1
-//@     invariant forall a int :: {counters[a]} 0 <= a && a < $i ==> counters[a] >= t
+//@     invariant {C07,C08,C14} forall a int :: {counters[a]} 0 <= a && a < $i ==> counters[a] >= t
 //@   loop 2
-//@     invariant forall a int :: {distributions[a]} 0 <= a && a < i ==> ThresholdQ#0(distributions[a]) >= AlphaT
+//@     invariant {C07,C08} forall a int :: {distributions[a]} 0 <= a && a < i ==> ThresholdQ#0(distributions[a]) >= AlphaT
 
 //@ func PowerOnDetectFast
 //@   requires source != nil && !readfailed(source)
@@ -207,9 +207,9 @@ package detect
 //@   assume after Wait: err == nil ==> (forall a int, k int :: {distributions[a][k]} 0 <= a && a < 15 && 0 <= k && k < s ==> distributions[a][k] == qval(a, st, p0 + k*B, B))
 //@   assume after Wait: err == nil ==> (forall a int :: {counters[a]} 0 <= a && a < 15 ==> counters[a] == passcnt(a, st, p0, B, s))
 //@   loop 1
-//@     invariant forall a int :: {counters[a]} 0 <= a && a < $i ==> counters[a] >= t
+//@     invariant {C07,C08,C14} forall a int :: {counters[a]} 0 <= a && a < $i ==> counters[a] >= t
 //@   loop 2
-//@     invariant forall a int :: {distributions[a]} 0 <= a && a < i ==> ThresholdQ#0(distributions[a]) >= AlphaT
+//@     invariant {C07,C08} forall a int :: {distributions[a]} 0 <= a && a < i ==> ThresholdQ#0(distributions[a]) >= AlphaT
 
 //@ func PeriodDetectFast
 //@   requires source != nil && !readfailed(source)
@@ -221,7 +221,7 @@ package detect
 //@   assume after Wait: err == nil ==> (forall a int, k int :: {distributions[a][k]} 0 <= a && a < 12 && 0 <= k && k < s ==> distributions[a][k] == qval(a, st, p0 + k*B, B))
 //@   assume after Wait: err == nil ==> (forall a int :: {counters[a]} 0 <= a && a < 12 ==> counters[a] == passcnt(a, st, p0, B, s))
 //@   loop 1
-//@     invariant forall a int :: {counters[a]} 0 <= a && a < $i ==> counters[a] >= t
+//@     invariant {C07,C08,C14} forall a int :: {counters[a]} 0 <= a && a < $i ==> counters[a] >= t
 //@   loop 2
-//@     invariant forall a int :: {distributions[a]} 0 <= a && a < i ==> ThresholdQ#0(distributions[a]) >= AlphaT
+//@     invariant {C07,C08} forall a int :: {distributions[a]} 0 <= a && a < i ==> ThresholdQ#0(distributions[a]) >= AlphaT
 
